@@ -69,7 +69,7 @@ def it_advance_spec(it):
     return ite(bits(it, 2, 0) == 0, 0, (it & 0xE0) | ((it << 1) & 0x1F))
 
 
-def make_unit(iset, cube_name, cube_pred, memarch='PMSA', nregions=1, props=('C18', 'C10', 'C04', 'C05', 'C19', 'C01', 'C02', 'C03', 'C06', 'C07', 'C08', 'C09', 'C12', 'C13', 'C14', 'C20')):
+def make_unit(iset, cube_name, cube_pred, memarch='PMSA', nregions=1, props=('C18', 'C10', 'C04', 'C05', 'C19', 'C01', 'C02', 'C03', 'C06', 'C07', 'C08', 'C09', 'C11', 'C12', 'C13', 'C14', 'C20')):
     m = registry.mods()
     A = m.arm_v6.ArmV6
     Rg = m.registers.Registers
@@ -246,10 +246,16 @@ def make_unit(iset, cube_name, cube_pred, memarch='PMSA', nregions=1, props=('C1
             cond, cu = cur_cond_spec(iset, instr, oplen, cpsr0)
             passed = P.ConditionHolds(cond, bit(cpsr0, 31), bit(cpsr0, 30), bit(cpsr0, 29), bit(cpsr0, 28))
             it0 = ST.cpsr_field(cpsr0, 'it')
-            waive = lor(passed, unpred, cu, _is_bkpt(iset, instr), land(bits(it0, 3, 0) != 0, _unpred_in_it_block(iset, instr)))
+            waive = lor(passed, cu, _is_bkpt(iset, instr), land(bits(it0, 3, 0) != 0, _unpred_in_it_block(iset, instr)))
+            if kname != 'none':
+                waive = lor(waive, unpred)
+            # (a word rejected by the decoder - no opcode object - is judged by the table alone: that the code printed
+            # 'unpredictable' while rejecting it is not evidence that the architecture makes it UNPREDICTABLE)
             if all(e == 'take_undef_instr_exception' for e in took):
                 if not eng.prove(sym.zb(waive)):
                     waive = lor(waive, table_decode_undefined(iset, instr, oplen, init, mem.init))
+            elif kname == 'none':
+                waive = lor(waive, unpred)
             ob = eng.oblige('safe.noop', '%s: an instruction whose condition fails raises no exception (%s)' % (tag, ','.join(took)), waive)
             ob.props = ['C05']
         # ---- C19 privilege confinement
@@ -295,8 +301,43 @@ def make_unit(iset, cube_name, cube_pred, memarch='PMSA', nregions=1, props=('C1
             ob.props = [dprop]
             if ob.status != 'proved':
                 misdecoded_families(eng, tag, kname, iset, instr, oplen, init, mem.init, belongs, dprop)
+            # exception-generating instructions (SVC, SMC): the exception taken is the one the instruction specifies for this
+            # state (SMC: Hyp trap under HCR.TSC, UNDEFINED in User mode / without Security Extensions / when SCR.SCD disables
+            # it), and the state afterwards is the architectural entry from the state the instruction started in
+            for r in rws:
+                if r.exc is None or len(took) != 1:
+                    continue
+                from spec.cpu import Cpu
+                base = Cpu(dict(init), 'arm' if iset == 'arm' else 'thumb', instr, oplen)
+                f_ = r.extract(instr)
+                u_enc = lor(r.sbz_violated(instr), r.unpred(f_, base) if r.unpred is not None else False)
+                kinds, none_before = {}, True
+                for c_, k_ in r.exc(base, f_):
+                    kinds[k_] = lor(kinds.get(k_, False), land(none_before, c_))
+                    none_before = land(none_before, lnot(c_))
+                waive = lor(lnot(r.match(instr)), u_enc, unpred, kinds.get('unpred', False))
+                name_of = {'take_svc_exception': 'svc', 'take_smc_exception': 'smc', 'take_hyp_trap_exception': 'hyptrap',
+                           'take_undef_instr_exception': 'undef'}
+                k_took = name_of.get(took[0])
+                ob = eng.oblige('post.exc', '%s: the exception taken (%s) is the one the instruction specifies in this state' % (tag, took[0]),
+                                lor(waive, kinds.get(k_took, False)))
+                ob.props = fams(r, fam) + ['C11']
+                exp = dict(init)
+                if k_took == 'hyptrap':
+                    exp['hsr'] = final['hsr']           # the syndrome is WriteHSR()'s business; the exception class is checked below
+                if k_took == 'svc':
+                    # CallSupervisor(): the syndrome is written only where the call is going to be taken to Hyp mode
+                    to_hyp = lor(mode0 == ST.HYP, land(init['cfg.have_virt_ext'], lnot(ST.is_secure(init)), mode0 == ST.USR, bit(init['hcr'], 27) == 1))
+                    exp['hsr'] = ite(to_hyp, final['hsr'], init['hsr'])
+                {'svc': EXC.take_svc, 'smc': EXC.take_smc, 'hyptrap': EXC.take_hyp_trap, 'undef': EXC.take_undef_instr}.get(k_took, lambda s_: None)(exp)
+                named = [(k, lor(waive, values_eq(v, exp[k]))) for k, v in final.items() if k not in SCRATCH]
+                named.append(('mem', lor(waive, sym.SymBool(mem.term == mem.init))))
+                if k_took == 'hyptrap' and sym.is_intlike(final['hsr']):
+                    named.append(('HSR.EC', lor(waive, bits(final['hsr'], 31, 26) == 0b010011)))
+                ob = eng.oblige_all('post', '%s: the state after %s is the architectural entry from the initial state; nothing else changes' % (tag, took[0]), named)
+                ob.props = fams(r, fam) + ['C11']
             # an exception raised by the operation itself (Hyp trap, UNDEFINED in this mode/state) only where the operation's
-            # specification has one; data aborts depend on the abstract memory, SVC/SMC are the instruction's purpose
+            # specification has one; data aborts depend on the abstract memory
             if took and all(e in ('take_hyp_trap_exception', 'take_undef_instr_exception') for e in took):
                 for r in rws:
                     if r.op is None or r.opfields is not None:
@@ -320,6 +361,22 @@ def make_unit(iset, cube_name, cube_pred, memarch='PMSA', nregions=1, props=('C1
             ob.props = [dprop]
             if ob.status != 'proved':
                 misdecoded_families(eng, tag, kname, iset, instr, oplen, init, mem.init, belongs, dprop)
+            for r in rows:
+                if r.exc is not None:
+                    passed_x, cu_x = PSR.condition_passed('arm' if iset == 'arm' else 'thumb', instr, oplen, init['cpsr'])
+                    from spec.cpu import Cpu
+                    base = Cpu(dict(init), 'arm' if iset == 'arm' else 'thumb', instr, oplen)
+                    f_ = r.extract(instr)
+                    u_enc = lor(r.sbz_violated(instr), r.unpred(f_, base) if r.unpred is not None else False)
+                    kx, nb = False, True
+                    for c_, k_ in r.exc(base, f_):
+                        if k_ == 'unpred':
+                            kx = lor(kx, land(nb, c_))
+                        nb = land(nb, lnot(c_))
+                    ob = eng.oblige('post.exc', '%s: completes without an exception only when its condition fails' % tag,
+                                    lor(lnot(r.match(instr)), lnot(passed_x), cu_x, u_enc, unpred, kx))
+                    ob.props = fams(r, fam) + ['C11']
+
             def fix(name, w, v):
                 # small decoded fields that the path condition already determines are handed to the spec as constants
                 if w > 2 or not sym.is_sym(v):
